@@ -43,6 +43,7 @@ func (u unsupportedErr) Error() string { return u.msg }
 
 // VC holds the verification condition of one function under contract.
 type VC struct {
+	pinned []string // root terms of parameters and call results: allocation facts are carried across havocs as ground facts
 	keepHyps map[string]bool // assumed intermediate assertions (atcall) that focused renderings keep
 	implVars map[string]specVal // names of the implemented interface contract, bound to this method's parameters
 	eng           *Engine
@@ -940,4 +941,31 @@ func (vc *VC) mapCanonical(name, term string, st *hstate) {
 	H := vc.lookup(st, hh, "(Array Int (Array "+ks+" Bool))")
 	vc.emit(fmt.Sprintf("(assert (forall ((m Int) (k %s)) (! (=> (not (select (select %s m) k)) (= (select (select %s m) k) %s)) :pattern ((select (select %s m) k)))))", ks, H, term, zero, term))
 	vc.assumed["map model: the value heap holds the zero value at absent keys (kept by make, update and delete)"] = true
+}
+
+// pin registers the root of a reference-like value for ground allocation facts across havocs.
+func (vc *VC) pin(term string, t types.Type) {
+	if len(vc.pinned) >= 120 {
+		return
+	}
+	switch t.Underlying().(type) {
+	case *types.Pointer, *types.Map, *types.Chan:
+		vc.pinned = append(vc.pinned, sx("root", term))
+	case *types.Slice:
+		vc.pinned = append(vc.pinned, sx("root", sArr(term)))
+	case *types.Interface:
+		vc.pinned = append(vc.pinned, sx("root", sx("i-val", term)))
+	}
+}
+
+func (vc *VC) pinTerm(t string) {
+	if len(vc.pinned) >= 120 || strings.Contains(t, "q!") {
+		return
+	}
+	for _, p := range vc.pinned {
+		if p == t {
+			return
+		}
+	}
+	vc.pinned = append(vc.pinned, t)
 }
